@@ -420,7 +420,7 @@ func (a *analysis) oracleC17() verdict {
 			}
 			var fin int64
 			for _, o := range a.hist() {
-				if o.Op.B == bi && !o.Skipped && (o.Op.K == "setcur" || o.Op.K == "settotal" || o.Op.K == "abort" || o.Op.K == "incr" || o.Op.K == "increment") {
+				if o.Op.B == bi && !o.Skipped && (o.Op.K == "setcur" || o.Op.K == "ewmasetcur" || o.Op.K == "settotal" || o.Op.K == "abort" || o.Op.K == "incr" || o.Op.K == "increment" || o.Op.K == "ewmaincr" || o.Op.K == "proxyread" || o.Op.K == "proxywrite" || o.Op.K == "enable") {
 					if fin == 0 || o.Inv < fin {
 						fin = o.Inv
 					}
